@@ -277,8 +277,7 @@ func (c *Client) closeStream() error {
 	// Close all pending subscriptions.
 	c.subscribedAcctsMtx.Lock()
 	for _, subscription := range c.subscribedAccts {
-		close(subscription.quit)
-		close(subscription.msgChan)
+		subscription.close()
 	}
 	c.subscribedAcctsMtx.Unlock()
 
